@@ -336,6 +336,16 @@ def dropStream (s : State) (id : Sid) : State × Bool :=
            | (s, .error _) => (s, false)
            | (s, .ok ()) => ({ s with pendQ := s.pendQ ++ [.reset id] }, false))
 
+/-- `poll_write_stream`, the arm "Substream is writeable. Continue." (`x` = the table entry) -/
+def writeOpen (s : State) (x : Sub) (id : Sid) (data : List Nat) : State × R Nat :=
+  let n := min data.length s.cfg.split
+  match sendFrame s (.data id (data.take n)) with
+  | (s1, .pending) => (s1, .pending)
+  | (s1, .ready (.error e)) => (s1, .ready (.error e))
+  | (s1, .ready (.ok ())) =>
+    -- ghost bookkeeping only: the accepted prefix and the Data frame put into the sink
+    (s1.put { x with acc := x.acc ++ [data.take n], sent := x.sent ++ [some (data.take n)] }, .ready (.ok n))
+
 /-- `poll_write_stream` -/
 def pollWriteStream (s : State) (id : Sid) (data : List Nat) : State × R Nat :=
   match guardOpen s with
@@ -347,14 +357,7 @@ def pollWriteStream (s : State) (id : Sid) (data : List Nat) : State × R Nat :=
       match x.st with
       | .reset => (s, .ready (.error .brokenPipe))
       | .sendClosed | .closed => (s, .ready (.error .writeZero))
-      | .opn | .recvClosed =>
-        let n := min data.length s.cfg.split
-        match sendFrame s (.data id (data.take n)) with
-        | (s, .pending) => (s, .pending)
-        | (s, .ready (.error e)) => (s, .ready (.error e))
-        | (s, .ready (.ok ())) =>
-          -- ghost bookkeeping only: the accepted prefix and the Data frame put into the sink
-          (s.put { x with acc := x.acc ++ [data.take n], sent := x.sent ++ [some (data.take n)] }, .ready (.ok n))
+      | .opn | .recvClosed => writeOpen s x id data
 
 /-- the `loop` of `poll_read_stream` -/
 def readStreamLoop : Nat → State → Sid → Nat → State × R (Option (List Nat))
@@ -418,6 +421,15 @@ def pollFlushStream (s : State) : State × R Unit :=
   | some e => (s, .ready (.error e))
   | none => pollFlush s
 
+/-- `poll_close_stream`, the arms `Open`/`RecvClosed`: the entry has been removed, the `Close` frame
+is sent, the entry is re-inserted (`x` = the removed entry) -/
+def closeOpen (s : State) (x : Sub) (id : Sid) : State × R Unit :=
+  match sendFrame (s.del id) (.close id) with
+  | (s1, .ready (.error e)) => (s1, .ready (.error e))
+  | (s1, .pending) => (s1.put x, .pending)
+  | (s1, .ready (.ok ())) =>
+    (s1.put { x with sent := x.sent ++ [none], st := if x.st = .opn then .sendClosed else .closed }, .ready (.ok ()))
+
 /-- `poll_close_stream` -/
 def pollCloseStream (s : State) (id : Sid) : State × R Unit :=
   match guardOpen s with
@@ -428,14 +440,7 @@ def pollCloseStream (s : State) (id : Sid) : State × R Unit :=
     | some x =>
       match x.st with
       | .sendClosed | .closed | .reset => (s, .ready (.ok ()))
-      | .opn | .recvClosed =>
-        -- the entry is removed, the frame sent, the entry re-inserted
-        match sendFrame (s.del id) (.close id) with
-        | (s, .ready (.error e)) => (s, .ready (.error e))
-        | (s, .pending) => (s.put x, .pending)
-        | (s, .ready (.ok ())) =>
-          let x := { x with sent := x.sent ++ [none] }
-          (s.put { x with st := if x.st = .opn then .sendClosed else .closed }, .ready (.ok ()))
+      | .opn | .recvClosed => closeOpen s x id
 
 /-! ### `Substream` (lib.rs): a handle = stream id + `current_data` -/
 
